@@ -25,12 +25,35 @@ SECS = {"utmp": {1: T0 + 10, 2: T0 + 20, 3: T0 + 30}, "lastlog": {1: T0 + 10, 2:
         "acct": {1: T0 + 10, 2: T0 + 20, 3: 2**31 + 5}}
 
 
+# field values that differ from record to record: the remote address (none, IPv4, IPv6 in several zero patterns), the
+# exit status pair, the record type
+ADDRS = [b"\0" * 16, bytes([192, 168, 1, 20]) + b"\0" * 12, b"\0" * 15 + b"\x01", bytes.fromhex("fe80000000000000" "0000000000000001"),
+         bytes.fromhex("20010db8000000000000000000000053"), bytes.fromhex("20010db885a3000000008a2e03707334"),
+         b"\0" * 4 + b"\x01\0\0\0" + b"\0" * 8, b"\0" * 8 + b"\x02\0\0\0" + b"\0" * 4, bytes([10, 0, 0, 255]) + b"\0" * 12,
+         bytes([255, 255, 255, 255]) + b"\0" * 8 + bytes([0, 0, 0, 128])]
+UT_TYPES = [(7, b"USER_PROCESS"), (7, b"USER_PROCESS"), (8, b"DEAD_PROCESS"), (6, b"LOGIN_PROCESS"), (7, b"USER_PROCESS"), (5, b"INIT_PROCESS")]
+
+
+def utmp_fields(i):
+    """(ut_type, type name, (e_termination, e_exit), address bytes, address as printed) of synthetic record i"""
+    ty, tyname = UT_TYPES[i % len(UT_TYPES)]
+    ex = ((i * 3) % 5, (i * 7) % 256) if ty == 8 else (0, 0)
+    addr = ADDRS[i % len(ADDRS)]
+    w = struct.unpack("<4I", addr)
+    if w[1] == w[2] == w[3] == 0:
+        text = b"ut_addr %d.%d.%d.%d" % tuple(addr[:4])
+    else:
+        text = b"ut_addr_v6 %X:%X:%X:%X" % w
+    return ty, tyname, ex, addr, text
+
+
 def rec_bytes(i, t, usec=0, layout="utmp", null=b"\0"):
     if layout == "utmp":
         if t == 0:
             return null * gen.UTMP_SZ
-        return gen.utmp_record(7, 1000 + i, b"pts/%d" % i, b"t%d" % (i % 100), b"user%d" % i, b"host%d.example" % i,
-                               SECS["utmp"].get(t, T0 + 10 * t), usec, session=500 + i)
+        ty, _, ex, addr, _ = utmp_fields(i)
+        return gen.utmp_record(ty, 1000 + i, b"pts/%d" % i, b"t%d" % (i % 100), b"user%d" % i, b"host%d.example" % i,
+                               SECS["utmp"].get(t, T0 + 10 * t), usec, session=500 + i, exit_=ex, addr=addr)
     if layout == "acct":
         if t == 0:
             return null * 64
@@ -47,8 +70,8 @@ def rec_bytes(i, t, usec=0, layout="utmp", null=b"\0"):
 
 FILENAME = {"utmp": "wtmp", "acct": "pacct", "lastlog": "lastlog"}
 LINE_RE = {
-    "utmp": re.compile(rb"^ut_type USER_PROCESS ut_pid (\d+) ut_line '([^']*)' ut_id '([^']*)' ut_user '([^']*)' "
-                       rb"ut_host '([^']*)' e_termination 0 e_exit 0 ut_session '(\d+)' ut_xtime (\d+)\.(\d+) ut_addr 0\.0\.0\.0$"),
+    "utmp": re.compile(rb"^ut_type (\w+) ut_pid (\d+) ut_line '([^']*)' ut_id '([^']*)' ut_user '([^']*)' "
+                       rb"ut_host '([^']*)' e_termination (\d+) e_exit (\d+) ut_session '(\d+)' ut_xtime (\d+)\.(\d+) (ut_addr(?:_v6)? \S+)$"),
     "acct": re.compile(rb"^ac_flag 0b0010 \(ASU\) ac_version 3 ac_tty 0 ac_exitcode 0 ac_uid (\d+) ac_gid (\d+) ac_pid (\d+) ac_ppid 1 "
                        rb"ac_btime (\d+) ac_etime 1\.5 ac_utime 0 ac_stime 0 ac_mem 0 ac_io 0 ac_rw 0 ac_minflt 0 ac_majflt 0 ac_swaps 0 "
                        rb"ac_comm '([^']*)'$"),
@@ -59,8 +82,10 @@ LINE_RE = {
 def line_index(layout, m):
     """record index named by a parsed line, or None when fields of different records are mixed"""
     if layout == "utmp":
-        i = int(m.group(1)) - 1000
-        ok = (m.group(2), m.group(4), m.group(5), int(m.group(6))) == (b"pts/%d" % i, b"user%d" % i, b"host%d.example" % i, 500 + i)
+        i = int(m.group(2)) - 1000
+        _, tyname, ex, _, atext = utmp_fields(i)
+        ok = (m.group(1), m.group(3), m.group(4), m.group(5), m.group(6), int(m.group(7)), int(m.group(8)), int(m.group(9)), m.group(12)) == \
+             (tyname, b"pts/%d" % i, b"t%d" % (i % 100), b"user%d" % i, b"host%d.example" % i, ex[0], ex[1], 500 + i, atext)
     elif layout == "acct":
         i = int(m.group(1)) - 1000
         ok = (int(m.group(2)), int(m.group(3)), m.group(5)) == (2000 + i, 3000 + i, b"cmd%d" % i)
@@ -70,7 +95,16 @@ def line_index(layout, m):
     return i if ok else None
 
 
-def parse_records(out, layout="utmp"):
+def line_time(layout, m):
+    """(seconds, microseconds or None) printed on a parsed line"""
+    if layout == "utmp":
+        return int(m.group(10)), int(m.group(11))
+    if layout == "acct":
+        return int(m.group(4)), None
+    return int(m.group(1)), None
+
+
+def parse_records(out, layout="utmp", times_out=None):
     """stdout -> list of record indices, or None with a reason"""
     idxs = []
     extra = []
@@ -88,8 +122,10 @@ def parse_records(out, layout="utmp"):
             return None, "unparsable line %r" % ln[:120]
         i = line_index(layout, m)
         if i is None:
-            return None, "fields of different records mixed in line %r" % ln[:160]
+            return None, "a line does not show its record's own field values (fields of different records, or a field rendered wrongly): %r" % ln[:160]
         idxs.append(i)
+        if times_out is not None:
+            times_out.append((i,) + line_time(layout, m))
     if out.endswith(b"\0"):
         extra.append("NUL")
     return idxs, extra
@@ -100,8 +136,9 @@ def measure_key(sc):
     blob = rec_bytes(1, 1) + rec_bytes(2, 1)
     c = Case({"probe.utmp": blob}, ["--color", "never", "probe.utmp"])
     r = c.run(os.path.join(sc, "probe"))
-    idxs, _ = parse_records(r.out)
-    if idxs is None:
+    # (only which records appear matters here; what each line shows is examined on the instances)
+    idxs = [int(x) - 1000 for x in re.findall(rb"ut_pid (\d+) ", r.out)]
+    if not idxs:
         raise ToolError("cannot parse utmp output of the probe: %r" % r.out[:200])
     return "time_fo" if sorted(idxs) == [1, 2] else "time"
 
@@ -268,9 +305,16 @@ def run(pid, tier, seed):
             if rr.crashed:
                 rep.violation("crash", "rc=%s %r" % (rr.rc, rr.err[-200:]), case.replay_record(rr))
                 continue
-            idxs, extra = parse_records(rr.out, case.note["layout"])
+            ptimes = []
+            idxs, extra = parse_records(rr.out, case.note["layout"], ptimes)
             if idxs is None:
                 rep.violation("unparsable-output:%s" % case.note["layout"], extra, case.replay_record(rr))
+                continue
+            lay_ = case.note["layout"]
+            badt = [(i_, s_, u_) for (i_, s_, u_) in ptimes if 1 <= i_ <= len(recs) and
+                    (s_ != SECS[lay_].get(recs[i_ - 1], T0 + 10 * recs[i_ - 1]) or (u_ is not None and u_ != (7 if recs[i_ - 1] == 2 else 0)))]
+            if badt:
+                rep.violation("wrong-time-field:%s" % lay_, "record %d is printed with time %s.%s, not its own" % badt[0], case.replay_record(rr))
                 continue
             if idxs != list(emit):
                 lost = sorted(set(emit) - set(idxs))
